@@ -1,7 +1,7 @@
 (* Model of Runner::run (shuttle-engine/src/runtime/runner.rs): the iteration loop around
    Execution::run, for a scheduler with its `new_execution` method.  No proofs in this file. *)
 From Coq Require Import List NArith Bool Arith.
-From SV Require Import Clock.VClock Prim.Objects Sched.Dfs Engine.Exec.
+From SV Require Import Params Clock.VClock Prim.Objects Sched.Dfs Sched.Random Engine.Exec.
 Import ListNotations.
 
 Record full_scheduler (SS : Type) := mkFull {
@@ -32,17 +32,26 @@ Fixpoint runner_loop {SS} (fs : full_scheduler SS) (ms : max_steps) (iters efuel
   end.
 
 (* ---- DfsScheduler as a scheduler of the engine model ---- *)
-Record dfs_state := mkDfsSt { ds_dfs : dfs; ds_crashed : bool }.
+(* ds_data = Some f: allow_random_data = true with the FixedDataSource f (seeded with DFS_RANDOM_SEED);
+   None: next_u64 panics *)
+Record dfs_state := mkDfsSt { ds_dfs : dfs; ds_crashed : bool; ds_data : option fd }.
 
 Definition dfs_sched : full_scheduler dfs_state :=
   mkFull
     (mkSched
        (fun st offered cur yielding =>
           match Dfs.next_task (ds_dfs st) (map N.of_nat offered) with
-          | Chose id d => (Some (N.to_nat id), mkDfsSt d (ds_crashed st))
-          | Crash => (None, mkDfsSt (ds_dfs st) true)
+          | Chose id d => (Some (N.to_nat id), mkDfsSt d (ds_crashed st) (ds_data st))
+          | Crash => (None, mkDfsSt (ds_dfs st) true (ds_data st))
           end)
-       (fun st => (None, st)))          (* allow_random_data = false: next_u64 panics *)
+       (fun st => match ds_data st with
+                  | None => (None, st)          (* "requested random data from DFS scheduler with allow_random_data = false" *)
+                  | Some f => let '(x, f') := fd_next_u64 f in (Some x, mkDfsSt (ds_dfs st) (ds_crashed st) (Some f'))
+                  end))
     (fun st => match Dfs.new_execution (ds_dfs st) with
-               | Some d => Some (mkDfsSt d (ds_crashed st))
+               | Some d => Some (mkDfsSt d (ds_crashed st)
+                                         (match ds_data st with Some f => Some (snd (fd_reinitialize f)) | None => None end))
                | None => None end).
+
+Definition dfs_initial (max_iter : option nat) (allow_random_data : bool) : dfs_state :=
+  mkDfsSt (dfs_new max_iter) false (if allow_random_data then Some (fd_initialize DFS_RANDOM_SEED) else None).
